@@ -1,3 +1,4 @@
+import GoLevel.Gen.Consts
 /-!
 # Lifecycle: ownership of a storage, modes of a DB, handles, and what every public method does in each state
 
@@ -129,10 +130,17 @@ def IterM.isMove : IterM → Bool
   | .first | .last | .seek | .next | .prev => true
   | _ => false
 
+/-- Does a read on a DB that was switched to read-only still end in a table compaction?  Not since `tCompaction`
+consults the flag that `SetReadOnly` raises (`Gen.roCompactionParks`, a fact regenerated from the source): it
+finishes what was in flight and parks until `Close`.  (Before that repair it did — finding D14, kept as
+`C18.setReadOnly_quiesces_refuted_without_parking`.) -/
+def roReadsWakeCompaction : Bool := !Gen.roCompactionParks
+
 /-- Reads charge seeks to tables (`version.get` → `cSched`, `dbIter.sampleSeek`) and then wake `tCompaction`
 (`compTrigger`); where those goroutines run this may end in a compaction. -/
 def Mode.bgReacts : Mode → Bool
-  | .openRW | .switchedRO => true
+  | .openRW => true
+  | .switchedRO => roReadsWakeCompaction
   | _ => false
 
 /-! ## the tables -/
@@ -161,7 +169,7 @@ def dbTable (mode : Mode) (txLive : Bool) (m : DBm) : Outcome :=
   | .switchedRO =>
     if m = .close then ⟨.ok, [], true⟩        -- a compaction still in flight is aborted and reverted
     else if m.needsWriteLock then ⟨.readonly, [], false⟩
-    else ⟨readCls m, [], m.isRead⟩            -- the code as it is: `tCompaction` still runs seek compactions
+    else ⟨readCls m, [], m.isRead && roReadsWakeCompaction⟩   -- reads charge seeks, but `tCompaction` is parked
 
 /-- `*leveldb.Snapshot` -/
 def snapTable (mode : Mode) (h : SnapSt) (m : SnapM) : Outcome :=
@@ -208,7 +216,7 @@ def iterTable (mode : Mode) (h : IterSt) (m : IterM) : Outcome :=
       -- buffers that went back to the pool: bogus corruption errors, slice-bounds panics
       (if mode = .closed then ⟨.ok, [.closed, .released, .other, .panic], false⟩
        else ⟨.ok, [], mode.bgReacts⟩)
-    else if m = .release then ⟨.ok, [], mode.bgReacts⟩       -- dropping the version may delete tables a compaction replaced
+    else if m = .release then ⟨.ok, [], mode = .openRW ∨ mode = .switchedRO⟩   -- dropping the version may delete tables a compaction replaced
     else ⟨.ok, [], false⟩
   | .released =>
     if m.isMove then ⟨.released, [], false⟩
@@ -239,7 +247,15 @@ structure Cfg where
   /-- seek-triggered compaction can happen: `DisableSeeksCompaction` is off and reads can exhaust a table's
   seek allowance -/
   seeks : Bool
+  /-- `tCompaction` consults the read-only flag raised by `SetReadOnly` at the top of its loop and before it
+  executes a command: once the flag is up it starts nothing new, acknowledges waiters with `ErrReadOnly` and
+  parks on `closeC` (a compaction that was already running finishes; `mCompaction` is not concerned: a pending
+  flush still completes).  `false` = the loop as it was before the repair of D14. -/
+  parks : Bool
   deriving DecidableEq, Repr
+
+/-- the configuration of the code as it is: whether the loop parks is a fact regenerated from the source -/
+def codeCfg (seeks : Bool) : Cfg := ⟨seeks, Gen.roCompactionParks⟩
 
 structure St where
   mode : Mode
@@ -253,10 +269,24 @@ structure St where
   (`session.refLoop`) waits for that iterator's `Release` -/
   pins : Nat
   tx : TxSt
+  /-- a table compaction that `tCompaction` had started before `SetReadOnly` raised its flag is still running
+  (only ever set by `SetReadOnly`) -/
+  running : Bool
   deriving DecidableEq, Repr
 
 /-- nothing is left for the background loops, no deferred deletion is waiting for an iterator -/
-def St.drained (s : St) : Bool := !s.frozen && s.due == 0 && s.pins == 0
+def St.drained (s : St) : Bool := !s.frozen && s.due == 0 && s.pins == 0 && !s.running
+
+/-- the work that was in flight when `SetReadOnly` was called has completed: the pending flush, the table
+compaction that was running, the deferred deletions.  Compactions may still be *due* (`tableNeedCompaction()`):
+a parked `tCompaction` never starts them. -/
+def St.settled (s : St) : Bool := !s.frozen && !s.running && s.pins == 0
+
+/-- `tCompaction` may start (or, for `running`, finish) a table compaction in this state -/
+def compactionPending (c : Cfg) (s : St) : Bool :=
+  if c.parks && s.mode == .switchedRO then s.running else decide (s.due > 0)
+
+def compactionRuns (c : Cfg) (s : St) : Bool := s.bg && s.mode != .closed && compactionPending c s
 
 inductive Ev
   /-- a method call; `p` resolves what the model leaves open: for reads `p > 0` = this read exhausted a table's
@@ -303,20 +333,20 @@ structure Res where
 
 /-- `Close` of an open DB: goroutines exit (an unfinished compaction is reverted), the open transaction is
 discarded, journal and manifest are closed, the lock is dropped -/
-def closeRes (s : St) (cls : Cls) (p : Nat) : Res :=
-  ⟨{ s with mode := .closed, bg := false, tx := s.tx.afterClose }, cls,
+def closeRes (c : Cfg) (s : St) (cls : Cls) (p : Nat) : Res :=
+  ⟨{ s with mode := .closed, bg := false, tx := s.tx.afterClose, running := false }, cls,
     (if s.tx == .live && p > 0 then [.remove] else []) ++
-    (if s.bg && (s.frozen || s.due > 0) then [.remove] else []) ++ [.closeFile, .unlock]⟩
+    (if s.bg && (s.frozen || compactionPending c s) then [.remove] else []) ++ [.closeFile, .unlock]⟩
 
 /-- `DB` methods on a read-only DB -/
 def stepRO (c : Cfg) (s : St) (m : DBm) (p : Nat) (cls : Cls) : Res :=
-  if m = .close then closeRes s cls p
+  if m = .close then closeRes c s cls p
   else if m = .sizeOf then ⟨s, cls, [.open, .read]⟩
   else ⟨chargeSeek c s (m.isRead && p > 0), cls, []⟩      -- writers are refused before they touch anything
 
 /-- `DB` methods on an open read-write DB (no transaction in the way) -/
 def stepRW (c : Cfg) (s : St) (m : DBm) (p : Nat) (cls : Cls) : Res :=
-  if m = .close then closeRes s cls p
+  if m = .close then closeRes c s cls p
   else if m = .put ∨ m = .delete ∨ m = .write then
     -- journal write; when the buffer is full the pending flush is awaited, then `newMem` rotates
     (if p > 0 then ⟨{ s with frozen := true, due := s.due + b2n s.frozen }, cls,
@@ -325,7 +355,8 @@ def stepRW (c : Cfg) (s : St) (m : DBm) (p : Nat) (cls : Cls) : Res :=
   else if m = .writeLarge then ⟨{ s with due := s.due + b2n (p > 0) }, cls, [.create, .write, .sync, .closeFile, .write, .sync]⟩
   else if m = .compactRange then ⟨{ s with frozen := false, due := 0 }, cls, rotateActs ++ flushActs ++ compactActs⟩
   else if m = .openTransaction then ⟨{ s with frozen := false, tx := .live }, cls, rotateActs ++ flushActs⟩
-  else if m = .setReadOnly then ⟨{ s with mode := .switchedRO }, cls, []⟩
+  -- `p > 0`: a table compaction is running at the moment the flag goes up (it is one of the due ones)
+  else if m = .setReadOnly then ⟨{ s with mode := .switchedRO, running := s.bg && decide (p > 0) && decide (s.due > 0) }, cls, []⟩
   else if m = .sizeOf then ⟨s, cls, [.open, .read]⟩
   else ⟨chargeSeek c s (m.isRead && p > 0), cls, []⟩
 
@@ -369,10 +400,11 @@ def step (c : Cfg) (s : St) : Ev → Res
       ⟨{ s with frozen := false, due := s.due + moreDue p }, .ok, flushActs⟩
     else ⟨s, .ok, []⟩
   | .bgCompact p =>
-    -- `tCompaction`: `if db.tableNeedCompaction() … db.tableAutoCompaction()`; no check of the read-only state
-    if s.bg && s.due > 0 && s.mode != .closed then
-      (if deferred p then ⟨{ s with due := s.due - 1 + moreDue p, pins := s.pins + 1 }, .ok, compactActsDeferred⟩
-       else ⟨{ s with due := s.due - 1 + moreDue p }, .ok, compactActs⟩)
+    -- `tCompaction`: `if db.tableNeedCompaction() … db.tableAutoCompaction()`; with `c.parks` the read-only flag
+    -- is consulted first: only the compaction that was already running completes
+    if compactionRuns c s then
+      (if deferred p then ⟨{ s with due := s.due - 1 + moreDue p, pins := s.pins + 1, running := false }, .ok, compactActsDeferred⟩
+       else ⟨{ s with due := s.due - 1 + moreDue p, running := false }, .ok, compactActs⟩)
     else ⟨s, .ok, []⟩
 
 /-- run a list of events, collecting the storage actions -/
@@ -395,7 +427,7 @@ def openActs (ro : Bool) : List Act :=
 
 /-- the state right after a successful `openDB` -/
 def opened (ro : Bool) (due : Nat) : St :=
-  { mode := if ro then .openRO else .openRW, bg := !ro, frozen := false, due := due, pins := 0, tx := .none }
+  { mode := if ro then .openRO else .openRW, bg := !ro, frozen := false, due := due, pins := 0, tx := .none, running := false }
 
 /-! ## one storage, several DBs -/
 
